@@ -1,4 +1,5 @@
 import Orx.Generated.Bounds
+import Orx.GenThms.Surface
 /-! # C14 Type-level safety: thread-safety bounds and borrow lifetimes
 
 Lean cannot run rustc's trait solver or borrow checker. What it decides here is the *bound logic* over the
@@ -328,5 +329,20 @@ def predictionLines : List String :=
     [ElemKind.sendSync, .notSend, .notSync].flatMap fun e =>
       [IterKind.send, .notSend].map fun it =>
         "PRED " ++ c ++ " " ++ e.name ++ " " ++ it.name ++ " " ++ (if accepts ⟨c, e, it⟩ then "accept" else "reject")
+
+section Surface
+open Orx.GenThms.Surface
+
+/-- **no consuming iterator, wrapper, chunk or buffered iterator is `Clone`** (a clone of a value that owns elements, or the wrapped
+iterator, would give two owners through safe code): `Clone` exists for the counter, the slice iterator (by hand), the range
+iterator and `HasMore` (derived) only -/
+theorem source_no_owner_is_clone :
+    sameSet (implsOf "Clone") ["AtomicCounter", "ConIterOfSlice"] = true ∧
+    fnsOf "Clone" "AtomicCounter" = [["clone"]] ∧ fnsOf "Clone" "ConIterOfSlice" = [["clone"]] ∧
+    sameSet (derivers "Clone") ["HasMore", "ConIterOfRange"] = true ∧
+    sameSet (derivers "Copy") ["HasMore"] = true :=
+  Orx.GenThms.Surface.the_clonables
+
+end Surface
 
 end Orx.Props.C14
